@@ -104,6 +104,23 @@ def _e10(chk, repo, mname, fn, W):
             p = getattr(n, "_parent", None)
             fallback = isinstance(p, ast.BoolOp) and isinstance(p.op, ast.Or) and p.values[0] is not n \
                 and isinstance(p.values[0], ast.Call) and unparse(p.values[0].func) == "getattr" and len(p.values[0].args) == 3
+            # the same with try / except AttributeError: the handler runs only when the first spelling is missing
+            q = p
+            handler = None
+            while q is not None and q is not fn:
+                if isinstance(q, ast.ExceptHandler) and q.type is not None and "AttributeError" in unparse(q.type):
+                    handler = q
+                    break
+                q = getattr(q, "_parent", None)
+            if handler is not None and isinstance(getattr(handler, "_parent", None), ast.Try):
+                tried = [x for b_ in handler._parent.body for x in ast.walk(b_)
+                         if isinstance(x, ast.Attribute) and unparse(x.value) == unparse(n.value) and isinstance(x.ctx, ast.Load)]
+                if tried:
+                    chk.decide(all(hasattr(cls, x.attr) for x in tried), "E10", W,
+                               "%s.%s only after AttributeError on %s.%s which exists" % (unparse(n.value), n.attr, cname, tried[0].attr),
+                               why="neither alternative exists on this interpreter", node=n)
+                    n_attr += 1
+                    continue
             if fallback:
                 g = p.values[0]
                 first = g.args[1].value if isinstance(g.args[1], ast.Constant) else None
@@ -313,6 +330,14 @@ def run(chk, repo):
                why="the buffer must return to native order so that later items are stored correctly", node=ca)
     tb = at.get("tobytes")
     ok = tb is not None and unparse(tb.value) in ("getattr(chunk, 'tobytes', None) or chunk.tostring", "chunk.tobytes")
+    tbs = [n_ for n_ in ast.walk(ca) if isinstance(n_, ast.Assign) and [unparse(t_) for t_ in n_.targets] == ["tobytes"]]
+    if not ok and len(tbs) == 2:
+        # try: tobytes = chunk.tobytes / except AttributeError: tobytes = chunk.tostring
+        tries_ = [n_ for n_ in ast.walk(ca) if isinstance(n_, ast.Try) and len(n_.body) == 1 and n_.body[0] is tbs[0]
+                  and len(n_.handlers) == 1 and n_.handlers[0].type is not None
+                  and unparse(n_.handlers[0].type) == "AttributeError" and len(n_.handlers[0].body) == 1
+                  and n_.handlers[0].body[0] is tbs[1] and not n_.orelse and not n_.finalbody]
+        ok = len(tries_) == 1 and unparse(tbs[0].value) == "chunk.tobytes" and unparse(tbs[1].value) == "chunk.tostring"
     chk.decide(ok, "C18.array", WI("chunks[array]"), short(tb) if tb is not None else "tobytes missing",
                why="export must be the byte string of the array", node=ca)
     lp = [s for s in ab if isinstance(s, ast.For)]
@@ -326,7 +351,8 @@ def run(chk, repo):
                why="item k of a chunk is stored at index k; a chunk is exported after exactly `size` items and the index "
                    "restarts at 0", node=ca)
     tail = ab[-1]
-    ok = isinstance(tail, ast.If) and unparse(tail.test) == "idx != 0" \
+    from ..dtable import Facts as _F, holds as _holds
+    ok = isinstance(tail, ast.If) and all(_holds(tail.test, _F(values={"idx": v_})) is (v_ != 0) for v_ in (0, 1, 7)) \
         and [unparse(s) for s in tail.body] in (["for idx in xrange(idx, size):\n    chunk[idx] = padval", "yield export()"],
                                                 ["while idx < size:\n    chunk[idx] = padval\n    idx += 1", "yield export()"])
     chk.decide(ok, "C18.array", WI("chunks[array]"), "tail: " + short(tail, 120),
